@@ -80,10 +80,12 @@ func (fr *frame) block(b *ssa.BasicBlock, st *state) {
 			fr.doMakeSlice(b, st, x)
 		case *ssa.MakeMap:
 			r := fr.newObj(st, x, 0)
-			md, _, mc := c.mapKeys(x.Type())
-			ks := c.sortOf(x.Type().Underlying().(*types.Map).Key())
-			st.heap[md] = fmt.Sprintf("(store %s %s ((as const (Array %s Bool)) false))", c.heapGet(st, md), r, ks)
-			st.heap[mc] = fmt.Sprintf("(store %s %s 0)", c.heapGet(st, mc), r)
+			md, mv, mc := c.mapKeys(x.Type())
+			mt := x.Type().Underlying().(*types.Map)
+			ks := c.sortOf(mt.Key())
+			vc.assumeG(fmt.Sprintf("(= (select %s %s) ((as const (Array %s %s)) %s))", c.heapGet(st, mv), r, ks, c.sortOf(mt.Elem()), c.zero(mt.Elem())))
+			vc.assumeG(fmt.Sprintf("(= (select %s %s) ((as const (Array %s Bool)) false))", c.heapGet(st, md), r, ks))
+			vc.assumeG(fmt.Sprintf("(= (select %s %s) 0)", c.heapGet(st, mc), r))
 		case *ssa.MakeChan:
 			fr.newObj(st, x, 0)
 		case *ssa.MakeClosure:
@@ -204,17 +206,26 @@ func (fr *frame) doAlloc(b *ssa.BasicBlock, st *state, x *ssa.Alloc) {
 		tyid = vc.w.typeID(el)
 	}
 	r := fr.newObj(st, x, tyid)
+	// allocation does not change the heap arrays: the cells of the fresh object are assumed to hold zero values
 	if at, ok := el.Underlying().(*types.Array); ok {
 		if at.Len() <= 16 {
 			for i := int64(0); i < at.Len(); i++ {
-				c.storeAt(st, fmt.Sprintf("(elem %s %d)", r, i), at.Elem(), c.zero(at.Elem()))
+				fr.assumeZeroAt(st, fmt.Sprintf("(elem %s %d)", r, i), at.Elem())
 			}
 		} else {
 			c.unsup("large array allocation")
 		}
 		return
 	}
-	c.storeAt(st, r, el, c.zero(el))
+	fr.assumeZeroAt(st, r, el)
+}
+
+func (fr *frame) assumeZeroAt(st *state, a string, t types.Type) {
+	c := fr.vc.c
+	for _, lf := range c.leaves(t) {
+		k := c.cellKey(lf.typ)
+		fr.vc.assumeG(fmt.Sprintf("(= (select %s %s) %s)", c.heapGet(st, k), addrPath(a, lf.fids), c.zero(lf.typ)))
+	}
 }
 
 // regAccess resolves an address rooted at a register local: returns key, selector path.
@@ -412,7 +423,7 @@ func (fr *frame) doIndexAddr(b *ssa.BasicBlock, st *state, x *ssa.IndexAddr) {
 	case *types.Slice:
 		fr.oblPanic(b, "index", x, fmt.Sprintf("(not (and (<= 0 %s) (< %s (slen %s))))", iv, iv, xv))
 		fr.assumeOK(b, fmt.Sprintf("(and (<= 0 %s) (< %s (slen %s)))", iv, iv, xv))
-		fr.vals[x] = fmt.Sprintf("(elem (sdata %s) (+ (soff %s) %s))", xv, xv, iv)
+		fr.vals[x] = fmt.Sprintf("(selem %s %s)", xv, iv)
 	case *types.Pointer:
 		at := u.Elem().Underlying().(*types.Array)
 		if fr.needNilCheck(x.X) {
@@ -464,20 +475,14 @@ func (fr *frame) doSlice(b *ssa.BasicBlock, st *state, x *ssa.Slice) {
 	}
 }
 
-// freshRegion re-versions the cells of element type el so that the object with id oid holds `zero`
-// (or unconstrained values when zero is false) and everything else is unchanged.
-func (fr *frame) freshRegion(st *state, el types.Type, r string, zero bool) {
+// zeroRegion assumes that all element cells of the fresh backing store r (elements of type el) hold zero values.
+func (fr *frame) zeroRegion(st *state, el types.Type, r string) {
 	c := fr.vc.c
 	for _, lf := range c.leaves(el) {
 		k := c.cellKey(lf.typ)
-		old := c.heapGet(st, k)
-		n := c.freshConst(k, c.heapSorts[k])
-		if zero {
-			c.assume(fmt.Sprintf("(forall ((fa!x Ref)) (! (= (select %s fa!x) (ite (= (born fa!x) (oid %s)) %s (select %s fa!x))) :pattern ((select %s fa!x))))", n, r, c.zero(lf.typ), old, n))
-		} else {
-			c.assume(fmt.Sprintf("(forall ((fa!x Ref)) (! (=> (not (= (born fa!x) (oid %s))) (= (select %s fa!x) (select %s fa!x))) :pattern ((select %s fa!x))))", r, n, old, n))
-		}
-		st.heap[k] = n
+		H := c.heapGet(st, k)
+		p := addrPath(fmt.Sprintf("(selem %s zr!i)", r), lf.fids)
+		fr.vc.assumeG(fmt.Sprintf("(forall ((zr!i Int)) (! (= (select %s %s) %s) :pattern ((select %s %s))))", H, p, c.zero(lf.typ), H, p))
 	}
 }
 
@@ -493,8 +498,8 @@ func (fr *frame) doMakeSlice(b *ssa.BasicBlock, st *state, x *ssa.MakeSlice) {
 	c.assume(fmt.Sprintf("(= %s (+ %s 1))", na, st.alloc))
 	st.alloc = na
 	el := x.Type().Underlying().(*types.Slice).Elem()
-	fr.freshRegion(st, el, rn, true)
-	fr.define(x, fmt.Sprintf("(mk-slice %s 0 %s)", rn, ln))
+	res := fr.define(x, fmt.Sprintf("(mk-slice %s 0 %s)", rn, ln))
+	fr.zeroRegion(st, el, res)
 }
 
 func (fr *frame) doAppend(b *ssa.BasicBlock, st *state, x ssa.Value, args []ssa.Value) {
@@ -507,29 +512,27 @@ func (fr *frame) doAppend(b *ssa.BasicBlock, st *state, x ssa.Value, args []ssa.
 	c.assume(fmt.Sprintf("(= %s (obj %s))", rn, st.alloc))
 	na := c.freshConst("A", "Int")
 	c.assume(fmt.Sprintf("(= %s (+ %s 1))", na, st.alloc))
-	pre := st.clone()
 	st.alloc = na
 	if c.sortOf(args[1].Type()) == "String" {
 		c.unsup("append(bytes, string...)")
 		fr.havocVal(x, st)
 		return
 	}
-	fr.freshRegion(st, el, rn, false)
+	res := fr.define(x, fmt.Sprintf("(mk-slice %s 0 (+ (slen %s) (slen %s)))", rn, s, t))
 	for _, lf := range c.leaves(el) {
 		k := c.cellKey(lf.typ)
-		nw, old := c.heapGet(st, k), c.heapGet(pre, k)
-		p1 := addrPath(fmt.Sprintf("(elem %s ap!i)", rn), lf.fids)
-		s1 := addrPath(fmt.Sprintf("(elem (sdata %s) (+ (soff %s) ap!i))", s, s), lf.fids)
-		c.assume(fmt.Sprintf("(forall ((ap!i Int)) (! (=> (and (<= 0 ap!i) (< ap!i (slen %s))) (= (select %s %s) (select %s %s))) :pattern ((select %s %s))))", s, nw, p1, old, s1, nw, p1))
-		p2 := addrPath(fmt.Sprintf("(elem %s (+ (slen %s) ap!i))", rn, s), lf.fids)
-		s2 := addrPath(fmt.Sprintf("(elem (sdata %s) (+ (soff %s) ap!i))", t, t), lf.fids)
-		c.assume(fmt.Sprintf("(forall ((ap!i Int)) (! (=> (and (<= 0 ap!i) (< ap!i (slen %s))) (= (select %s %s) (select %s %s))) :pattern ((select %s %s))))", t, nw, p2, old, s2, old, s2))
+		H := c.heapGet(st, k)
+		p1 := addrPath(fmt.Sprintf("(selem %s ap!i)", res), lf.fids)
+		s1 := addrPath(fmt.Sprintf("(selem %s ap!i)", s), lf.fids)
+		fr.vc.assumeG(fmt.Sprintf("(forall ((ap!i Int)) (! (=> (and (<= 0 ap!i) (< ap!i (slen %s))) (= (select %s %s) (select %s %s))) :pattern ((select %s %s))))", s, H, p1, H, s1, H, p1))
+		p2 := addrPath(fmt.Sprintf("(selem %s (+ (slen %s) ap!i))", res, s), lf.fids)
+		s2 := addrPath(fmt.Sprintf("(selem %s ap!i)", t), lf.fids)
+		fr.vc.assumeG(fmt.Sprintf("(forall ((ap!i Int)) (! (=> (and (<= 0 ap!i) (< ap!i (slen %s))) (= (select %s %s) (select %s %s))) :pattern ((select %s %s))))", t, H, p2, H, s2, H, s2))
 		// the common single-element case, instantiated explicitly
-		p20 := addrPath(fmt.Sprintf("(elem %s (slen %s))", rn, s), lf.fids)
-		s20 := addrPath(fmt.Sprintf("(elem (sdata %s) (soff %s))", t, t), lf.fids)
-		c.assume(fmt.Sprintf("(=> (>= (slen %s) 1) (= (select %s %s) (select %s %s)))", t, nw, p20, old, s20))
+		p20 := addrPath(fmt.Sprintf("(selem %s (slen %s))", res, s), lf.fids)
+		s20 := addrPath(fmt.Sprintf("(selem %s 0)", t), lf.fids)
+		fr.vc.assumeG(fmt.Sprintf("(=> (>= (slen %s) 1) (= (select %s %s) (select %s %s)))", t, H, p20, H, s20))
 	}
-	fr.define(x, fmt.Sprintf("(mk-slice %s 0 (+ (slen %s) (slen %s)))", rn, s, t))
 	c.note("append always reallocates (aliasing between the result of append and its argument's spare capacity is not modelled)")
 }
 
